@@ -21,6 +21,7 @@ type CodeWriter struct {
 
 // WriteString writes a string to the buffer
 func (cw *CodeWriter) WriteString(s string) {
+	defer cw.vtrace("WriteString", s)()
 	cw.restoreSemi(s)
 	cw.flushPending()
 	cw.Builder.WriteString(s)
@@ -35,6 +36,7 @@ func (cw *CodeWriter) WriteString(s string) {
 
 // WriteRune writes a rune to the buffer
 func (cw *CodeWriter) WriteRune(r rune) {
+	defer cw.vtrace("WriteRune", string(r))()
 	cw.restoreSemi(string(r))
 	cw.flushPending()
 	cw.Builder.WriteRune(r)
@@ -53,6 +55,7 @@ func (cw *CodeWriter) WriteRune(r rune) {
 // the previous one into a different token (`- -x` -> `--x`, `a + ++b` -> `a+++b`, `a < !--b` -> `a<!--b`,
 // `a-- > b` -> `a-->b`). Call it before recording the operator's mapping.
 func (cw *CodeWriter) SeparateOperator(operator string) {
+	defer cw.vtrace("SeparateOperator", operator)()
 	if len(cw.pendings) > 0 || operator == "" {
 		return
 	}
@@ -67,6 +70,7 @@ func (cw *CodeWriter) SeparateOperator(operator string) {
 
 // WriteSemi writes a semicolon if WriteSemicolons is true.
 func (cw *CodeWriter) WriteSemi() {
+	defer cw.vtrace("WriteSemi", "")()
 	if !cw.PrettyPrint {
 		cw.WriteRune(';')
 		return
